@@ -260,12 +260,47 @@ func JavaNames(src string) (Names, error) {
 	return n, err
 }
 
+// CodeFingerprint extracts, from one generated parser source, the sequence of ATN state numbers the code sets and
+// the sequence of decision numbers it hands to the prediction engine, in order of appearance. ANTLR emits the same
+// sequences for every target language from one grammar; a hand edit of one generated file changes them.
+func CodeFingerprint(src, lang string) (states, decisions []int) {
+	var stateRe, decRe *regexp.Regexp
+	switch lang {
+	case "go":
+		stateRe = regexp.MustCompile(`p\.SetState\((\d+)\)`)
+		decRe = regexp.MustCompile(`AdaptivePredict\(p\.BaseParser, p\.GetTokenStream\(\), (\d+),`)
+	case "ts":
+		stateRe = regexp.MustCompile(`this\.state = (\d+);`)
+		decRe = regexp.MustCompile(`adaptivePredict\(this\._input, (\d+),`)
+	case "java":
+		stateRe = regexp.MustCompile(`setState\((\d+)\);`)
+		decRe = regexp.MustCompile(`adaptivePredict\(_input,(\d+),_ctx\)`)
+	}
+	for _, m := range stateRe.FindAllStringSubmatch(src, -1) {
+		v, _ := strconv.Atoi(m[1])
+		states = append(states, v)
+	}
+	for _, m := range decRe.FindAllStringSubmatch(src, -1) {
+		v, _ := strconv.Atoi(m[1])
+		decisions = append(decisions, v)
+	}
+	return
+}
+
 // LexerGrammar is what the lexer .g4 declares.
 type LexerGrammar struct {
-	Tokens   []string          // token type names in numbering order (tokens{} block, then rules)
-	Rules    []string          // every lexer rule incl. fragments, in order
-	Modes    []string          // DEFAULT_MODE + declared modes
-	Literals map[string]string // token name -> simple literal (with quotes) when the rule body is one literal
+	// LiteralRules: rules whose body is nothing but alternatives of plain literals ('a' | 'b' ...): rule -> literals
+	// (unquoted), with the mode the rule lives in and the token type it produces (its own name or the -> type(X) target)
+	LiteralRules []LiteralRule
+	Tokens       []string          // token type names in numbering order (tokens{} block, then rules)
+	Rules        []string          // every lexer rule incl. fragments, in order
+	Modes        []string          // DEFAULT_MODE + declared modes
+	Literals     map[string]string // token name -> simple literal (with quotes) when the rule body is one literal
+}
+
+type LiteralRule struct {
+	Name, Mode, Token string
+	Literals          []string
 }
 
 func ReadLexerGrammar(path string) (*LexerGrammar, error) {
@@ -282,6 +317,7 @@ func ReadLexerGrammar(path string) (*LexerGrammar, error) {
 			lg.Tokens = append(lg.Tokens, n)
 		}
 	}
+	curMode := "DEFAULT_MODE"
 	i := 0
 	next := func() string {
 		if i < len(toks) {
@@ -305,6 +341,7 @@ func ReadLexerGrammar(path string) (*LexerGrammar, error) {
 			next()
 		case "mode":
 			lg.Modes = append(lg.Modes, next())
+			curMode = lg.Modes[len(lg.Modes)-1]
 			next() // ;
 		case "fragment":
 			name := next()
@@ -342,6 +379,35 @@ func ReadLexerGrammar(path string) (*LexerGrammar, error) {
 				addTok(name)
 				if cmdAt == 1 && strings.HasPrefix(body[0], "'") {
 					lg.Literals[name] = body[0]
+				}
+			}
+			// literal-only rule?
+			lits := []string{}
+			only := cmdAt > 0
+			for k := 0; k < cmdAt; k++ {
+				switch {
+				case k%2 == 0 && strings.HasPrefix(body[k], "'") && !strings.Contains(body[k], "\\"):
+					lits = append(lits, strings.Trim(body[k], "'"))
+				case k%2 == 1 && body[k] == "|":
+				default:
+					only = false
+				}
+			}
+			if only && cmdAt%2 == 1 {
+				tok := name
+				for q := cmdAt; q+3 < len(body); q++ {
+					if body[q] == "type" && body[q+1] == "(" {
+						tok = body[q+2]
+					}
+				}
+				skip := false
+				for q := cmdAt; q < len(body); q++ {
+					if body[q] == "channel" || body[q] == "skip" {
+						skip = true
+					}
+				}
+				if !skip {
+					lg.LiteralRules = append(lg.LiteralRules, LiteralRule{Name: name, Mode: curMode, Token: tok, Literals: lits})
 				}
 			}
 		}
